@@ -3,6 +3,8 @@
 #![allow(unused_imports, dead_code, clippy::all)]
 use super::*;
 use garble_lang::register_circuit::{And, Circuit, Input, Inst, Not, Op, Reg, Xor};
+use crate::mpc::data_types::{Auth, Delta, GarbledGate, Key, Label, Mac, Share};
+use std::collections::BTreeSet;
 
 include!("/verif/harness/common.rs");
 
@@ -114,6 +116,20 @@ fn c18_validate_ok_implies() {
             all_in &= *p < parties;
         }
         assert!(all_in, "C18:ok-implies:p_out<parties");
+        // an output set that repeats an index must be rejected or treated as a set; output()
+        // sends one message per entry of p_out, so (as long as that is so) Ok must imply
+        // that the entries are distinct
+        let mut distinct = true;
+        let mut i = 0;
+        while i < p_out.len() {
+            let mut j = 0;
+            while j < i {
+                distinct &= p_out[i] != p_out[j];
+                j += 1;
+            }
+            i += 1;
+        }
+        assert!(distinct, "C18:ok-implies:p_out-duplicate-free");
         assert!(
             p_own < parties && inputs.len() == circ.input_regs[p_own],
             "C18:ok-implies:inputs.len"
@@ -126,13 +142,13 @@ fn c18_validate_ok_implies() {
 
 // ---------------------------------------------------------------- C01 (batch / chunk agreement)
 
-/// chunk_size_iter, small-value class: every total ≤ 40, chunk ≤ 12.
+/// chunk_size_iter, small-value class: every total ≤ 24, chunk ≤ 8.
 #[kani::proof]
-#[kani::unwind(42)]
+#[kani::unwind(26)]
 fn c01_chunk_iter_small() {
     let total: usize = kani::any();
     let chunk: usize = kani::any();
-    kani::assume(total <= 40 && chunk <= 12);
+    kani::assume(total <= 24 && chunk <= 8);
     let mut n = 0usize;
     let mut sum = 0usize;
     let mut last = 0usize;
@@ -276,5 +292,310 @@ fn c01_flush_pattern_matches_chunk_iter() {
     }
     ok &= it.next().is_none();
     assert!(ok, "C01:flush-pattern==chunk_size_iter(and_ops, and_share_batch_size)");
-    kani::cover!(full == 9 && rem != 0, "nine_full_plus_remainder_reachable");
+    kani::cover!(full == 8 && rem != 0, "eight_full_plus_remainder_reachable");
+}
+
+// =============================================================================================
+// Segment harnesses: synchronous statement runs cut out of the async protocol functions on
+// every run (runner/segments.py). What arrived in the preceding `.await` is arbitrary.
+include!("/verif/harness/segs_protocol.rs");
+
+fn sh2(bit: bool, m0: u128, k0: u128, m1: u128, k1: u128) -> Share {
+    Share(bit, Auth(vec![(Mac(m0), Key(k0)), (Mac(m1), Key(k1))]))
+}
+
+fn any_share2() -> Share {
+    sh2(kani::any(), kani::any(), kani::any(), kani::any(), kani::any())
+}
+
+fn any_opt_bool_mac() -> Option<(bool, Mac)> {
+    if kani::any() {
+        Some((kani::any(), Mac(kani::any())))
+    } else {
+        None
+    }
+}
+
+fn any_opt_bool() -> Option<bool> {
+    if kani::any() {
+        Some(kani::any())
+    } else {
+        None
+    }
+}
+
+fn out_circuit(o0: u32, o1: u32) -> Circuit {
+    Circuit {
+        input_regs: vec![1, 1],
+        insts: vec![],
+        max_reg_count: 2,
+        output_regs: vec![Reg(o0), Reg(o1)],
+        and_ops: 0,
+    }
+}
+
+/// C02/C03 - output opening at an output party (n = 2, own index 0, peer 1, two output
+/// positions over two registers, duplicates allowed): whatever the peer sent as its
+/// output-wire shares, Ok(bits) implies that for every output register the peer's share was
+/// present, its MAC verified under the own key and global key, and the returned bit is
+/// evaluator value ^ own share ^ peer share.
+fn output_tail_n2(o0: u32, o1: u32) {
+    let circ = out_circuit(o0, o1);
+    let delta = Delta(kani::any());
+    let own = [any_share2(), any_share2()];
+    let own_bits = [own[0].0, own[1].0];
+    let own_keys = [own[0].1 .0[1].1 .0, own[1].1 .0[1].1 .0];
+    let peer = [any_opt_bool_mac(), any_opt_bool_mac()];
+    let ev = [any_opt_bool(), any_opt_bool()];
+    let p_out = [0usize];
+    let uniq: BTreeSet<Reg> = circ.output_regs.iter().copied().collect();
+    let [s0, s1] = own;
+    let r = seg_output_tail(
+        &circ,
+        0,
+        2,
+        &p_out,
+        delta,
+        vec![s0, s1],
+        vec![vec![], vec![peer[0], peer[1]]],
+        vec![ev[0], ev[1]],
+        uniq,
+    );
+    let ok = r.is_ok();
+    kani::cover!(ok, "output_ok_reachable");
+    kani::cover!(!ok, "output_err_reachable");
+    if let Ok(bits) = &r {
+        assert!(bits.len() == 2, "C02:output:one-bit-per-output-position(duplicates-preserved)");
+        let regs = [o0 as usize, o1 as usize];
+        let mut idx = 0;
+        while idx < 2 {
+            let w = regs[idx];
+            assert!(ev[w].is_some(), "C02:output:evaluator-value-present");
+            assert!(peer[w].is_some(), "C02:output:omitted-peer-share-not-accepted");
+            if let (Some(v), Some((rb, mac))) = (ev[w], peer[w]) {
+                assert!(mac.0 == own_keys[w] ^ (if rb { delta.0 } else { 0 }), "C03:output:peer-share-MAC-verified");
+                assert!(bits.len() == 2 && bits[idx] == (v ^ own_bits[w] ^ rb), "C02:output:bit==value^own-share^peer-share");
+            }
+            idx += 1;
+        }
+    }
+    std::mem::forget(r);
+    std::mem::forget(circ);
+}
+
+macro_rules! output_tail_variant {
+    ($name:ident, $o0:expr, $o1:expr) => {
+        #[kani::proof]
+        #[kani::unwind(6)]
+        #[kani::stub(std::fmt::format, no_format)]
+        fn $name() {
+            output_tail_n2($o0, $o1);
+        }
+    };
+}
+output_tail_variant!(c02_output_tail_n2_regs01, 0, 1);
+output_tail_variant!(c02_output_tail_n2_regs10, 1, 0);
+output_tail_variant!(c02_output_tail_n2_regs11, 1, 1);
+
+/// C05 (result side): a party outside the output set returns an empty vector from the opening.
+#[kani::proof]
+#[kani::unwind(6)]
+#[kani::stub(std::fmt::format, no_format)]
+fn c05_output_tail_non_output_party_gets_nothing() {
+    let circ = out_circuit(0, 1);
+    let p_out = [1usize];
+    let uniq: BTreeSet<Reg> = circ.output_regs.iter().copied().collect();
+    let r = seg_output_tail(
+        &circ,
+        0,
+        2,
+        &p_out,
+        Delta(kani::any()),
+        vec![any_share2(), any_share2()],
+        vec![],
+        vec![any_opt_bool(), any_opt_bool()],
+        uniq,
+    );
+    let empty = matches!(&r, Ok(v) if v.is_empty());
+    assert!(empty, "C05:output:non-output-party-returns-empty-vector");
+    kani::cover!(empty, "non_output_reachable");
+    std::mem::forget(r);
+    std::mem::forget(circ);
+}
+
+/// C03 - evaluator's revealed (value, label) pairs are checked against the own zero-label and
+/// global key: Ok implies every output register carries Some((b, label0 ^ b*delta)).
+fn output_label_check_n2(o0: u32, o1: u32) {
+    let circ = out_circuit(o0, o1);
+    let delta = Delta(kani::any());
+    let l: [u128; 2] = kani::any();
+    let wl: [Option<(bool, Label)>; 2] = [
+        if kani::any() { Some((kani::any(), Label(kani::any()))) } else { None },
+        if kani::any() { Some((kani::any(), Label(kani::any()))) } else { None },
+    ];
+    let uniq: BTreeSet<Reg> = circ.output_regs.iter().copied().collect();
+    let r = seg_output_label_check(&circ, delta, vec![Label(l[0]), Label(l[1])], vec![wl[0], wl[1]], vec![None, None], uniq);
+    let ok = r.is_ok();
+    kani::cover!(ok, "label_check_ok_reachable");
+    kani::cover!(!ok, "label_check_err_reachable");
+    if let Ok(regs) = &r {
+        let ws = [o0 as usize, o1 as usize];
+        let mut idx = 0;
+        while idx < 2 {
+            let w = ws[idx];
+            assert!(wl[w].is_some(), "C03:output-label:missing-value-not-accepted");
+            if let Some((b, lab)) = wl[w] {
+                assert!(lab.0 == l[w] ^ (if b { delta.0 } else { 0 }), "C03:output-label:label==label0^b*delta");
+                assert!(regs[w] == Some(b), "C03:output-label:accepted-value-is-the-revealed-one");
+            }
+            idx += 1;
+        }
+    }
+    std::mem::forget(r);
+    std::mem::forget(circ);
+}
+
+macro_rules! output_label_variant {
+    ($name:ident, $o0:expr, $o1:expr) => {
+        #[kani::proof]
+        #[kani::unwind(6)]
+        #[kani::stub(std::fmt::format, no_format)]
+        fn $name() {
+            output_label_check_n2($o0, $o1);
+        }
+    };
+}
+output_label_variant!(c03_output_label_check_n2_regs01, 0, 1);
+output_label_variant!(c03_output_label_check_n2_regs11, 1, 1);
+
+fn ip_circuit(party0: u32, party1: u32, in0: u32, in1: u32) -> Circuit {
+    Circuit {
+        input_regs: vec![1, 1],
+        insts: vec![
+            Inst { out: Reg(0), op: Op::Input(Input { party: party0, input: in0 }) },
+            Inst { out: Reg(1), op: Op::Input(Input { party: party1, input: in1 }) },
+        ],
+        max_reg_count: 2,
+        output_regs: vec![Reg(0)],
+        and_ops: 0,
+    }
+}
+
+/// C03 - input sharing at the input owner (n = 2, own index 0): Ok implies that for every own
+/// input wire the peer's mask share was present and its MAC verified, and the masked input is
+/// input ^ own share ^ peer share; wires of the other party stay None.
+#[kani::proof]
+#[kani::unwind(6)]
+#[kani::stub(std::fmt::format, no_format)]
+fn c03_ip_mid_n2() {
+    let party0: u32 = kani::any();
+    let party1: u32 = kani::any();
+    kani::assume(party0 < 2 && party1 < 2);
+    let circ = ip_circuit(party0, party1, 0, if party0 == party1 { 1 } else { 0 });
+    let delta = Delta(kani::any());
+    let inputs: [bool; 2] = kani::any();
+    let n_in = if party0 == 0 && party1 == 0 { 2 } else { 1 };
+    let own = [any_share2(), any_share2()];
+    let own_bits = [own[0].0, own[1].0];
+    let own_keys = [own[0].1 .0[1].1 .0, own[1].1 .0[1].1 .0];
+    let peer = [any_opt_bool_mac(), any_opt_bool_mac()];
+    let [s0, s1] = own;
+    let r = seg_ip_mid(&circ, &inputs[..n_in], 0, 2, delta, vec![s0, s1], vec![vec![], vec![peer[0], peer[1]]]);
+    let ok = r.is_ok();
+    kani::cover!(ok, "ip_mid_ok_reachable");
+    kani::cover!(!ok, "ip_mid_err_reachable");
+    if let Ok(masked) = &r {
+        assert!(masked.len() == 2, "C03:input:masked-vector-has-max_reg_count-slots");
+        let parties = [party0, party1];
+        let mut w = 0;
+        while w < 2 {
+            if parties[w] == 0 {
+                assert!(peer[w].is_some(), "C03:input:missing-peer-mask-share-not-accepted");
+                if let Some((b, mac)) = peer[w] {
+                    assert!(mac.0 == own_keys[w] ^ (if b { delta.0 } else { 0 }), "C03:input:peer-mask-share-MAC-verified");
+                    let inp = if w == 1 && party0 == 0 { inputs[1] } else { inputs[0] };
+                    assert!(masked[w] == Some(inp ^ own_bits[w] ^ b), "C03:input:masked==input^own-share^peer-share");
+                }
+            } else {
+                assert!(masked[w].is_none(), "C03:input:no-masked-value-for-foreign-wire");
+            }
+            w += 1;
+        }
+    }
+    std::mem::forget(r);
+    std::mem::forget(circ);
+}
+
+/// C03 - ConflictingInputMask: after the verified broadcast a peer may fill only wires the
+/// party did not fill itself; Ok implies the merged vector is the own entries plus the peer's
+/// entries on disjoint positions.
+#[kani::proof]
+#[kani::unwind(6)]
+#[kani::stub(std::fmt::format, no_format)]
+fn c03_ip_post_n2() {
+    let mine = [any_opt_bool(), any_opt_bool(), any_opt_bool()];
+    let theirs = [any_opt_bool(), any_opt_bool(), any_opt_bool()];
+    let r = seg_ip_post(0, 2, vec![mine[0], mine[1], mine[2]], vec![vec![], vec![theirs[0], theirs[1], theirs[2]]]);
+    let ok = r.is_ok();
+    kani::cover!(ok, "ip_post_ok_reachable");
+    kani::cover!(!ok, "ip_post_err_reachable");
+    if let Ok(m) = &r {
+        let mut w = 0;
+        while w < 3 {
+            assert!(!(mine[w].is_some() && theirs[w].is_some()), "C03:input:peer-cannot-overwrite-own-masked-input");
+            assert!(m[w] == if mine[w].is_some() { mine[w] } else { theirs[w] }, "C03:input:merged==own-or-peer");
+            w += 1;
+        }
+    }
+    std::mem::forget(r);
+}
+
+/// C05/C06 (send side of input sharing) + C18 (no panic on misplaced Input instructions):
+/// mask shares of an input wire go to the wire's owner only, never to a third party and never
+/// for non-input registers; arbitrary Input placement/party/index must not panic.
+#[kani::proof]
+#[kani::unwind(6)]
+#[kani::stub(std::fmt::format, no_format)]
+fn c05_ip_pre_n3() {
+    // 3 parties, own index 1; 2 instructions of any opcode, Input ones with arbitrary party/index
+    let insts = vec![any_inst(), any_inst()];
+    let max_reg_count: usize = 3;
+    kani::assume((insts[0].out.0 as usize) < max_reg_count && (insts[1].out.0 as usize) < max_reg_count);
+    let mut num_inputs = 0usize;
+    let mut owners: [Option<u32>; 3] = [None; 3];
+    let mut k = 0;
+    while k < 2 {
+        if let Op::Input(Input { party, .. }) = insts[k].op {
+            num_inputs += 1;
+            // documented validity (Circuit::validate): an Input at position i writes register i
+            kani::assume(insts[k].out.0 as usize == k);
+            owners[k] = Some(party);
+        }
+        k += 1;
+    }
+    let circ = Circuit { input_regs: vec![1, 1, 1], insts, max_reg_count, output_regs: vec![Reg(0)], and_ops: 0 };
+    // the engine hands over num_inputs := sum(input_regs) shares; the description may declare
+    // fewer inputs than it has Input instructions (counters disagree): 1 or 2 shares
+    let mk = || Share(kani::any(), Auth(vec![(Mac(kani::any()), Key(0)), (Mac(0), Key(0)), (Mac(kani::any()), Key(0))]));
+    let shares = if kani::any() { vec![mk()] } else { vec![mk(), mk()] };
+    let r = seg_ip_pre(&circ, 1, 3, shares);
+    kani::cover!(r.is_ok() && num_inputs == 2, "ip_pre_ok_reachable");
+    kani::cover!(r.is_err(), "ip_pre_err_reachable");
+    if let Ok(w) = &r {
+        assert!(w.len() == 3, "C05:input:one-message-slot-per-party");
+        let mut p = 0;
+        while p < 3 {
+            let mut reg = 0;
+            while reg < 3 {
+                if w.len() == 3 && w[p].len() == 3 && w[p][reg].is_some() {
+                    assert!(p != 1, "C05:input:no-share-addressed-to-self");
+                    assert!(owners[reg] == Some(p as u32), "C05:input:mask-share-goes-to-the-input-owner-only");
+                }
+                reg += 1;
+            }
+            p += 1;
+        }
+    }
+    std::mem::forget(r);
+    std::mem::forget(circ);
 }
